@@ -234,6 +234,32 @@ func init() {
 	registerRule(&RuleDef{ID: "GEN-ENUM", Min: 1, Doc: "enum alias names only with enum types on", Run: ruleGENENUM})
 	registerRule(&RuleDef{ID: "L-ATOM", Min: 8, Doc: "no value read from a guarded field is used in a later critical section of the same lock (split critical section / check-then-act)", Run: ruleLATOM("client", "cache", "server", "database/inmemory")})
 	add("C05", "L-ATOM")
+	add("C09", "K-FRESH")
+	registerRule(&RuleDef{ID: "A2-INPLACE", Min: 1, Doc: "a cached row object is replaced, never rewritten in place", Run: ruleA2INPLACE})
+	add("C14", "A2-INPLACE")
+	add("C13", "A2-INPLACE")
+	registerRule(&RuleDef{ID: "R-ITER", Min: 2, Doc: "the update merged for an operation is produced by that operation's own iteration", Run: ruleRITER})
+	add("C03", "R-ITER")
+	add("C02", "R-ITER")
+	add("C11", "R-ITER")
+	registerRule(&RuleDef{ID: "G-LOOPVAR", Min: 0, Doc: "no goroutine started in a loop is handed the address of a variable the loop overwrites", Run: ruleGLOOPVAR})
+	add("C20", "G-LOOPVAR")
+	add("C18", "G-LOOPVAR")
+	registerRule(&RuleDef{ID: "G-GLOBAL", Min: 1, Doc: "library code keeps no mutable package-level state (no store into a package-level variable outside initialisation)", Run: ruleGGLOBAL})
+	add("C12", "G-GLOBAL")
+	add("C18", "G-GLOBAL")
+	add("C13", "G-GLOBAL")
+	add("C17", "T-SCAN")
+	add("C06", "T-SCAN")
+	registerRule(&RuleDef{ID: "MAX-ONE", Min: 2, Doc: "the update engine splits single-valued sets off at max == 1, like the mapper and the generator", Run: ruleMAXONE})
+	add("C01", "MAX-ONE")
+	add("C07", "MAX-ONE")
+	add("C11", "MAX-ONE")
+	add("C10", "MAX-ONE")
+	add("C03", "L4")
+	add("C07", "T-WARM")
+	add("C08", "L2")
+	add("C18", "X5")
 	registerRule(&RuleDef{ID: "GEN-SKIP", Min: 1, Doc: "the generator skips writing a file only after a whole-content comparison (or in dry-run mode)", Run: ruleGENSKIP})
 	add("C20", "GEN-SKIP")
 	registerRule(&RuleDef{ID: "T-STALE", Min: 4, Doc: "no two AddOperation calls on one accumulator and row are given the same current value when one can follow the other", Run: ruleTSTALE})
